@@ -89,6 +89,13 @@ def evaluate(item, reg: Registry) -> str:
             o = cls.parse(a[0], a[1])
             r = o + a[2]
             return "ok:" + show(r.value)
+        if op == "toconst":
+            o = cls.parse(a[0], a[1])
+            if hasattr(o, "groups") and isinstance(o.groups, dict):
+                C = o.to_const(a[2]) if a[2] is not None else o.to_const()
+                return "ok:" + ";".join(f"{k}={v.__name__}:{json.dumps(v.regex(), sort_keys=True)}" for k, v in C.base_groups.items())
+            C = o.to_const()
+            return "ok:" + C.__name__ + ":" + json.dumps(C.regex(), sort_keys=True)
         raise KeyError(op)
     except RecursionError:
         raise
